@@ -6,7 +6,7 @@ PATCH=$1; DEMO=$2; shift 2
 D=$(mktemp -d /tmp/seedeval_XXXXXX)
 rsync -a --exclude .git --exclude seed /repo/ $D/
 mkdir -p $D/seed; cp $DEMO $D/seed/demo.py
-ORIGWT=$(grep -o '/tmp/seed[23456]\?_C[0-9]*' $DEMO | head -1)
+ORIGWT=$(grep -o '/tmp/seed[234567]\?_C[0-9]*' $DEMO | head -1)
 [ -n "$ORIGWT" ] && sed -i "s#$ORIGWT#$D#g" $D/seed/demo.py
 echo "== demo on unchanged copy"; (cd $D && PYTHONPATH=$D /venv/bin/python seed/demo.py 2>&1 | tail -2; echo "exit=$?")
 (cd $D && patch -p1 -s < $PATCH) || { echo "PATCH DID NOT APPLY"; rm -rf $D; exit 3; }
